@@ -30,9 +30,11 @@ def class_codes(cls, *extra):
     return out
 
 
-def run_threads(fns, chooser, tracer_codes=None, max_steps=20000):
-    """run callables as managed threads; returns (schedule of thread indices, errors, sched)"""
+def run_threads(fns, chooser, tracer_codes=None, max_steps=20000, raw=False):
+    """run callables as managed threads; returns (schedule of thread indices, errors, sched)
+    raw: the threads are started below the `threading` module (it does not count or list them)"""
     sched = dsched.Sched(chooser, max_steps=max_steps)
+    sched.raw_threads = raw
     dsched.Sched.current = sched
     if tracer_codes:
         sched.tracer = dsched.trace_opcodes(tracer_codes)
@@ -51,7 +53,7 @@ def run_threads(fns, chooser, tracer_codes=None, max_steps=20000):
 # C30 singleton
 # ---------------------------------------------------------------------------
 
-def singleton_run(n, chooser, opcode=False):
+def singleton_run(n, chooser, opcode=False, raw=False):
     saved = msing.RLock if hasattr(msing, "RLock") else None
     if saved is not None:
         msing.RLock = dsched.DRLock
@@ -69,7 +71,7 @@ def singleton_run(n, chooser, opcode=False):
                 rets[i] = dec()
             return f
         codes = class_codes(msing.SingletonDecorator) if opcode else None
-        order, errors, outcome, fin = run_threads([mk(i) for i in range(n)], chooser, codes)
+        order, errors, outcome, fin = run_threads([mk(i) for i in range(n)], chooser, codes, raw=raw)
         return order, errors, [r.oid if r is not None else None for r in rets], next(counter)
     finally:
         if saved is not None:
@@ -98,9 +100,10 @@ def explore_singleton(run, n_random):
     for _ in range(n_random):
         n = rng.randint(2, 3)
         seed = rng.randrange(1 << 30)
-        order, errors, rets, nobj = singleton_run(n, dsched.random_chooser(random.Random(seed)), opcode=True)
-        cj = {"what": "singleton-opcode", "threads": n, "seed": seed, "schedule": order}
-        run.count("singleton opcode-level runs")
+        raw = rng.random() < 0.4        # requesters that are not `threading.Thread`s (started below the threading module)
+        order, errors, rets, nobj = singleton_run(n, dsched.random_chooser(random.Random(seed)), opcode=True, raw=raw)
+        cj = {"what": "singleton-opcode", "threads": n, "seed": seed, "schedule": order, "raw_threads": raw}
+        run.count("singleton opcode-level runs" + (" (requesters unknown to the threading module)" if raw else ""))
         singleton_oracle(run, rets, errors, cj)
         run.case(cj, nontrivial=True)
 
@@ -309,6 +312,45 @@ def explore_registry(run, n_random):
         nums = [mevent.signals[n] for n in mevent.signals if n.startswith(tag)]
         if len(set(nums)) != len(nums):
             run.violate("C25/same-number-twice", "names registered through Event() share numbers: %s" % nums, cj)
+        run.case(cj, nontrivial=True)
+    # a thread whose request the registry refuses (an unknown signal number, an unhashable name) goes on, and so do the others
+    for k in range(max(1, n_random // 6)):
+        tag = "X%d_%d_" % (run.seed, rng.randrange(1 << 30))
+        saved = getattr(mevent, "_registry_lock", None)
+        if saved is not None:
+            mevent._registry_lock = dsched.DRLock()
+        refused = []
+        try:
+            def a():
+                for bad in (10 ** 9 + k, [tag], None):
+                    try:
+                        if isinstance(bad, list):
+                            mevent.signals.append(bad)
+                        else:
+                            mevent.Event(signal=bad)
+                        refused.append("accepted %r" % (bad,))
+                    except Exception as ex:  # noqa
+                        refused.append(type(ex).__name__)
+                mevent.Event(signal=tag + "A")
+                dsched.cur().yield_point("a.idle")              # stays alive while the others work
+
+            def b():
+                for j in range(2):
+                    mevent.Event(signal=tag + "B%d" % j)
+                getattr(mevent.signals, tag + "B_attr")
+            seed = rng.randrange(1 << 30)
+            order, errors, outcome, fin = run_threads([a, b], dsched.random_chooser(random.Random(seed)), None)
+            held = mevent._registry_lock._count if saved is not None else 0
+        finally:
+            if saved is not None:
+                mevent._registry_lock = saved
+        cj = {"what": "registry-refusal", "seed": seed, "schedule": order}
+        run.count("a refused registry request, then other threads register")
+        if errors:
+            run.violate("C25/event-construction-error", "after a refused request (%s): %s" % (refused, errors[:2]), cj)
+        elif not all(fin) or held:
+            run.violate("C25/registry-blocked-after-refusal", "a thread's requests were refused (%s) as they must be; afterwards another thread "
+                        "registering names never finished (registry lock still held %d time(s))" % (refused, held), cj)
         run.case(cj, nontrivial=True)
     # names of every shape first used through attribute access on a fresh registry: each gets a number of its own, for good
     import collections
@@ -519,7 +561,8 @@ def gen_tsa_progs(rng, allow_misread=False):
             elif r < 0.6:
                 p.append(("assign", rng.randint(1, 9)))
             elif r < 0.95 or not allow_misread:
-                p.append(("aug" if rng.random() < 0.8 else "aug2", rng.randint(1, 5)))
+                # (0: an update whose result is the very object already stored)
+                p.append(("aug" if rng.random() < 0.8 else "aug2", rng.choice([0, 0, 1, 2, 3, 4, 5])))
             else:
                 p.append(("misread", 0))
         progs.append(p)
@@ -591,6 +634,22 @@ def explore_instances(run, n_random):
         ops = []
         for _ in range(rng.randint(3, 12)):
             r = rng.random()
+            if r < 0.12 and insts and not delegating and not by_value:
+                # a new instance made as a shallow copy of an existing one (copy.copy, or a clone that copies the instance dict):
+                # it starts with the original's values and is independent from then on
+                import copy
+                i = rng.randrange(len(insts))
+                how = rng.choice(["copy.copy", "vars-update"])
+                if how == "copy.copy":
+                    insts.append(copy.copy(insts[i]))
+                else:
+                    fresh = Obj()
+                    vars(fresh).update(vars(insts[i]))
+                    insts.append(fresh)
+                model[len(insts) - 1] = model.get(i, 0)
+                ops.append(("clone", how, i))
+                run.count("instance made as a shallow copy of another (%s)" % how)
+                continue
             if r < 0.3 or not insts:
                 insts.append(Obj(insts[0]) if (delegating and insts) else Obj())
                 ops.append(("new",))
@@ -798,7 +857,7 @@ def replay(case):
     what = cc.get("what", "")
     ch = dsched.scripted_chooser(["T%d" % i for i in cc.get("schedule", [])], then=dsched.round_robin_chooser())
     if what.startswith("singleton"):
-        print(singleton_run(cc["threads"], ch, opcode=what.endswith("opcode")))
+        print(singleton_run(cc["threads"], ch, opcode=what.endswith("opcode"), raw=cc.get("raw_threads", False)))
     elif what.startswith("registry"):
         r = registry_run(cc["progs"], ch, opcode=what.endswith("opcode"), via=cc.get("via", "append"))
         print(r[1], r[3])
